@@ -1,4 +1,4 @@
-\* two files: the size persists, probing does not restart; liveness (the encoder never waits for ever)
+\* a pause seen after the probing: adaptation suspended (AckIgnored)
 SPECIFICATION Spec
 CONSTANTS
   Floor = 1024
@@ -6,20 +6,19 @@ CONSTANTS
   InitSize = 10240
   HardCap = 1073741824
   BoundFloor = 1048576
-  SendCap = 2
-  AckCap = 2
+  SendCap = 1
+  AckCap = 1
   MaxBufs = {40960}
   Modes = {"bin"}
   Protos = {4}
-  Secs = {2, 20}
+  Secs = {2}
   MaxChunks = 1
   P1MaxChunks = 1
-  MaxFiles = 2
-  MaxPauses = 0
-  StartSizes = {}
+  MaxFiles = 1
+  MaxPauses = 1
+  StartSizes = {40960}
   Variant = "coded"
 INVARIANTS TypeOK SizeInRange ChunksInRange NeverRejectedByReceiver NothingQueuedIsRejected ProbeEndsOnce
   TokenPaired EncoderNotStuck OneChunkWhileProbing DoubleOnlyWhenAllowed ShrinkOnlyWhenSlow
   SuspendedAfterPause ProbeEndedBy
-PROPERTIES Termination
 CHECK_DEADLOCK TRUE
